@@ -75,11 +75,37 @@ def guard_fallback(chk):
     return run
 
 
+def vname_native(chk):
+    """check_vname's contract evaluated natively on the real function: every reserved name, every reserved part as prefix / infix /
+    suffix of a name (also the spellings PyRates generates itself), and ordinary names that must be accepted."""
+    fn, _ = native.real_function(K.CHECK_VNAME["target"])
+    names = list(K.RESERVED_NAMES)
+    for part in K.RESERVED_PARTS:
+        names += [part, "x" + part, part + "x", "x" + part + "_out0", "r" + part + "ed", "a" + part + "0", part[1:] + part]
+    names += ["x", "r", "tau", "t", "weight", "r_in", "x_v1", "u_input", "k0", "eta", "Delta", "v_th", "pie", "api", "Ex", "In", "sine", "expo", "yy",
+              "buffer", "idx", "hist", "delays", "x_buf", "my_index", "E_l", "I_ext", "s_in", "theta"]
+    fails, n = [], 0
+    for v in names:
+        for vtype in ("constant", "state_var"):
+            n += 1
+            status, fl = native.check_call(K.CHECK_VNAME, {}, dict(v=v, vtype=vtype), fn=fn)
+            if status == "violated":
+                fails.append(dict(site="C20/check_vname", clauses=fl[:2], input=dict(v=v, vtype=vtype), features=dict(name=v),
+                                  rerun=dict(kind="contract", module="contracts.c20", contract="check_vname", model=dict(v=v, vtype=vtype))))
+    chk.add_bounded("native-check_vname", n, len(names),
+                    "check_vname on every reserved name, every reserved name part as prefix / infix / suffix (incl. generated spellings such "
+                    "as r_buffered, x_hist0, source_idx_out0) and 29 ordinary names, two variable types: raises exactly on the reserved ones and "
+                    "returns the variable type otherwise; distinct = names", [dict(v="r_buffered", vtype="constant")])
+    return fails
+
+
 def main():
     chk = Check("C20", "other")
     fb = guard_fallback(chk)
     chk.run_contracts("contracts.c20", fallback={"*": fb})
     for f in fb():
+        chk.report_failure(f)
+    for f in vname_native(chk):
         chk.report_failure(f)
     try:
         from checks import c20_matrix
@@ -88,7 +114,8 @@ def main():
         chk.notes.append("API-level guard matrix not available in this build")
     rc = chk.finish(
         explanation="Tier A (deductive): _validate_solver (verified against the SUPPORTED_SOLVERS of every backend class), "
-                    "_solve of Base/JAX/Fortran and _validate_backend_args raise exactly when the trigger holds and before any "
+                    "_solve of Base/JAX/Fortran, _validate_backend_args and check_vname (reserved names and name parts: the literal list and the loop "
+                    "over the literal parts are executed exhaustively) raise exactly when the trigger holds and before any "
                     "call that could produce a result (ghost counter `effects` == 0 on the exceptional exit); Base._solve "
                     "dispatches each supported name to its own implementation. Tier B (bounded): guard matrix on real objects.",
         assumptions=["string equality / tuple membership as in Python", "callees without contract are opaque and only counted"])
